@@ -128,8 +128,22 @@ func checkC07(p *Prog, r *Report) {
 	r.Floor("burn-functions", len(burnFns), 1)
 	eo := NewOrigin(p, end)
 	var burnCall *ssa.Call
+	reachesBurn := func(f *ssa.Function) bool {
+		if burnFns[f] {
+			return true
+		}
+		if f == nil || f.Blocks == nil || !InModule(f) {
+			return false
+		}
+		for _, vc := range NewOrigin(p, f).VirtualCallsX(nil, true) {
+			if in, ok := vc.Instr.(ssa.Instruction); ok && burnFns[in.Parent()] {
+				return true
+			}
+		}
+		return false
+	}
 	for _, cs := range callSites(end) {
-		if cs.Callee != nil && burnFns[resolveBound(cs.Callee)] {
+		if cs.Callee != nil && reachesBurn(resolveBound(cs.Callee)) {
 			burnCall, _ = cs.Instr.(*ssa.Call)
 		}
 	}
@@ -236,30 +250,33 @@ func checkC07(p *Prog, r *Report) {
 	o := NewOrigin(p, bfn)
 	fa := NewFacts(p, bfn, o)
 	var send, burn *ssa.Call
-	for _, cs := range callSites(bfn) {
-		cc := cs.Instr.Common()
-		if !cc.IsInvoke() && cs.Callee == nil {
+	var sendV, burnV *VCall
+	vcs := o.VirtualCallsX(fa, true) // the two bank calls may sit in an extracted helper of the burn keeper
+	for i := range vcs {
+		vc := &vcs[i]
+		cc := vc.Instr.Common()
+		if !cc.IsInvoke() && vc.Callee == nil {
 			continue
 		}
 		m := ""
 		if cc.IsInvoke() {
 			m = cc.Method.Name()
 		} else {
-			m = cs.Callee.Name()
+			m = vc.Callee.Name()
 		}
-		c, _ := cs.Instr.(*ssa.Call)
+		c, _ := vc.Instr.(*ssa.Call)
 		switch {
-		case strings.HasPrefix(m, "SendCoins"):
-			send = c
+		case strings.HasPrefix(m, "SendCoins") && c != nil && len(bankCapable(recvType(cc))) > 0:
+			send, sendV = c, vc
 		case m == "BurnCoins" && c != nil && len(bankCapable(recvType(cc))) > 0:
-			burn = c
+			burn, burnV = c, vc
 		}
 	}
 	if send == nil || burn == nil {
 		r.Fail(kp("ORIGIN", FuncName(bfn)+"#send+burn"), "the burn function sends the coins to the module account and burns them there", p.FnPos(bfn), "send or burn call not found")
 		return
 	}
-	st, bt2 := o.Of(send), o.Of(burn)
+	st, bt2 := sendV.Term, burnV.Term
 	// invoke term args: recv, ctx, ...
 	if !strings.HasSuffix(st.Name, "SendCoinsFromAccountToModule") || len(st.Args) != 5 || len(bt2.Args) != 4 {
 		r.Fail(kp("ORIGIN", FuncName(bfn)+"#send-shape"), "coins go from the burn address to the burn module account", p.Pos(send.Pos()), "unexpected send/burn call: "+st.Name)
@@ -283,23 +300,27 @@ func checkC07(p *Prog, r *Report) {
 	r.Check(okAmt, kp("ORIGIN", FuncName(bfn)+"#amount=spendable"), "the amount is a spendable-balance read of the sender itself (table of reads bank's SendCoins will accept: SpendableCoins/SpendableCoin)", p.Pos(send.Pos()),
 		"amount ≡ SpendableCoins(ctx, sender)", fmt.Sprintf("amount = %v — a total-balance read makes bank reject the whole send whenever part of the balance is locked (vesting account at the burn address), leaving every spendable coin there", samt))
 	// burn dominated by send success
-	_, okOrder := fa.DominatingFact(burn, true, func(t *Term) bool {
-		if t.Op != "eq" {
-			return false
+	okOrder := false
+	for _, a := range burnV.Cond.Atoms() {
+		t := a.Term
+		if t == nil || t.Op != "eq" {
+			continue
 		}
-		a, b := t.Args[0], t.Args[1]
-		if a.Op != "const" {
-			a, b = b, a
+		x, y := t.Args[0], t.Args[1]
+		if x.Op != "const" {
+			x, y = y, x
 		}
-		return a.Op == "const" && a.Name == "nil" && b.Eq(st)
-	})
+		if x.Op == "const" && x.Name == "nil" && y.Eq(st) && Entails(burnV.Cond, a) {
+			okOrder = true
+		}
+	}
 	r.Check(okOrder, kp("GUARD", FuncName(bfn)+"#burn-after-successful-send"), "the burn happens only after a successful send", p.Pos(burn.Pos()), "dominated by send err == nil", "BurnCoins is reachable without a successful send")
 	// every nil return either passed both calls or is under Empty(amount)
 	for i, ret := range returnsOf(bfn) {
 		if !isNilConst(ret.Results[0]) {
 			continue
 		}
-		if o.dominates(burn, ret) && o.dominates(send, ret) {
+		if o.dominates(burnV.Root.(ssa.Instruction), ret) && o.dominates(sendV.Root.(ssa.Instruction), ret) && burnV.Always && sendV.Always {
 			r.OK(kp("MUSTCALL", fmt.Sprintf("%s#return%d", FuncName(bfn), i)), "a nil return means the coins were sent and burned, or there was nothing spendable", p.Pos(ret.Pos()), "send and burn dominate")
 			continue
 		}
